@@ -12,6 +12,7 @@ _MYPY = False
 if _MYPY:
     import typing  # noqa: F401 # pylint: disable=import-error,unused-import,useless-suppression
 
+import numbers
 import re
 
 from ..ir import (
@@ -911,11 +912,15 @@ class IRGenerator:
                     if not (field._ast_node.type_ref.nullable and default_value is None):
                         # Verify that the type of the default value is correct for this field
                         try:
-                            if field.data_type.name in ('Float32', 'Float64'):
+                            if (field.data_type.name in ('Float32', 'Float64') and
+                                    isinstance(default_value, numbers.Real)):
                                 # You can assign int to the default value of float type
                                 # However float type should always have default value in float
                                 default_value = float(default_value)
-                            field.data_type.check(default_value)
+                            try:
+                                field.data_type.check(default_value)
+                            except NotImplementedError:
+                                raise ValueError('a default cannot be set for this type')
                         except ValueError as e:
                             raise InvalidSpec(
                                 'Field %s has an invalid default: %s' %
